@@ -4059,10 +4059,12 @@ class FuncSub(ValueFunc):
 
         if a.isDate():
             if b.isDate():
-                diff = to_oa_date(a.value) - to_oa_date(b.value)
-                if diff == math.trunc(diff):
-                    return ValueInt(math.trunc(diff))
-                return ValueDecimal(diff)
+                # exact: whole days and the rest of the day are taken from
+                # the dates, not from the difference of two rounded doubles
+                delta = a.value - b.value
+                if delta.seconds == 0 and delta.microseconds == 0:
+                    return ValueInt(delta.days)
+                return ValueDecimal(delta / datetime.timedelta(days=1))
             return date_from_number(
                 to_oa_date(a.value) - args.getAsDecimal("b").value, pos
             )
